@@ -5,6 +5,8 @@ package raft
 import (
 	"io"
 	"time"
+
+	hclog "github.com/hashicorp/go-hclog"
 )
 
 // ---- transport model ----
@@ -133,6 +135,8 @@ func vNewRaft(tag string, o vRaftOpts) (*Raft, *vEnv) {
 		leaderNotifyCh:        make(chan struct{}, 1),
 		followerNotifyCh:      make(chan struct{}, 1),
 		rpcCh:                 env.trans.consumer,
+		logger:                hclog.NewNullLogger(), // the engine stubs every Logger method; natively a null logger
+		mainThreadSaturation:  newSaturationMetric([]string{"raft", "thread", "main", "saturation"}, 1*time.Second),
 	}
 	if o.mono {
 		r.logs = mMonoLogStore{env.logs}
